@@ -22,6 +22,7 @@ import subprocess
 import importlib
 import faulthandler
 import gc
+import signal
 from collections import Counter
 
 VERIF = os.path.dirname(os.path.dirname(os.path.abspath(__file__)))
@@ -190,16 +191,40 @@ def run_one(mod, tier, seed=None, values=None):
     tape = Tape(seed=seed, values=values)
     saved_err = sys.stderr
     sys.stderr = _DEVNULL    # hio writes parse errors to sys.stderr; never part of any digest
+    limit = float(getattr(mod, "CASE_TIMEOUT", CASE_TIMEOUT))
+    old_handler = signal.signal(signal.SIGALRM, _on_alarm)
+    signal.setitimer(signal.ITIMER_REAL, limit)
     try:
         res = mod.run_case(tape, tier)
+    except CaseTimeout:
+        # the code under test (or a loop it drives) did not terminate: on the unchanged tree every case
+        # takes milliseconds, so this is reported as a violation of the property the case exercises
+        res = Result()
+        res.violate("case-timeout", "case did not finish within %.0f s (non-termination); draws so far: %d" % (limit, len(tape.log)))
+        res.scen_digest = digest(tape.recorded())
+        res.event_digest = "timeout"
+        res.scenario = dict(note="timed out", draws=len(tape.log))
     except HarnessError:
         raise
     except BaseException as ex:  # a bug in the harness, never a violation
         raise HarnessError("harness exception in %s: %s\n%s" % (
             mod.PID, repr(ex), traceback.format_exc())) from ex
     finally:
+        signal.setitimer(signal.ITIMER_REAL, 0)
+        signal.signal(signal.SIGALRM, old_handler)
         sys.stderr = saved_err
     return tape, res
+
+
+CASE_TIMEOUT = 20.0
+
+
+class CaseTimeout(BaseException):
+    pass
+
+
+def _on_alarm(signum, frame):
+    raise CaseTimeout()
 
 
 class _DevNull:
@@ -530,8 +555,11 @@ def main_check(pid, tier, seed, cases=None, jobs=None, wall=None):
             if oracle in seen_oracles or values is None or len(seen_oracles) >= 3:
                 continue
             seen_oracles.add(oracle)
-            small, nruns = minimise(mod, tier, values, oracle, known,
-                                    budget_s=cfg.get("min_budget", 20.0))
+            if oracle == "case-timeout":
+                small, nruns = list(values), 0       # every shrink run would cost a full timeout
+            else:
+                small, nruns = minimise(mod, tier, values, oracle, known,
+                                        budget_s=cfg.get("min_budget", 20.0))
             path, doc = write_replay(pid, tier, seed, idx, small, mod, known)
             if not any(v["oracle"] == oracle for v in doc["violation"]):
                 # minimised tape lost it (should not happen); fall back to the original
